@@ -1714,8 +1714,8 @@ func (s sortedErrors) Less(i, j int) bool {
 	// We expect the error strings to be composed of error messages,
 	// line numbers, etc. delimited by ":".
 	const errorSplitCount = 4
-	fi := strings.SplitN(s[i].s, ":", errorSplitCount)
-	fj := strings.SplitN(s[j].s, ":", errorSplitCount)
+	fi := splitErrorLocation(s[i].s, errorSplitCount)
+	fj := splitErrorLocation(s[j].s, errorSplitCount)
 	// First, order the errors by the file name.
 	if fi[0] < fj[0] {
 		return true
@@ -1743,6 +1743,20 @@ func (s sortedErrors) Less(i, j int) bool {
 		}
 	}
 	return false
+}
+
+// splitErrorLocation splits an error string into n fields at ":".  A source
+// without a name gives locations of the form "line 4:11" rather than
+// "file:4:11" (see Statement.Location); such a string is split as if it had
+// an empty file name, so that its line number is compared as a number.
+func splitErrorLocation(s string, n int) []string {
+	f := strings.SplitN(s, ":", n)
+	if rest := strings.TrimPrefix(f[0], "line "); rest != f[0] {
+		if _, err := strconv.Atoi(rest); err == nil {
+			f = append([]string{"", rest}, strings.SplitN(s, ":", n-1)[1:]...)
+		}
+	}
+	return f
 }
 
 // errorSort sorts the strings in the errors slice assuming each line starts
